@@ -590,9 +590,50 @@ def ob_ops(Ne, nPg, dim, seed):
     return Verdict(DISCHARGED, backend="native run of the real FeArray vs explicit per-(e,p) loops, integer-valued data", sub=n)
 
 
+def ob_function_forms(Ne, nPg, dim):
+    """numpy functions called on fields follow the rule of the operators: np.matmul(a, b) is `a @ b` for every rank pair (constant or field on either side), and a reducer is
+    typed by the axes it consumes whichever way its arguments are passed (np.linalg.norm(x, ord, axis) positionally)"""
+    from EasyFEA.FEM._linalg import FeArray
+    rng = np.random.default_rng(Ne * 100 + nPg * 10 + dim)
+    fld = lambda *t: FeArray.asfearray(rng.normal(size=(Ne, nPg) + t))
+    cst = lambda *t: rng.normal(size=t)
+    n = 0
+    pairs = [("constant matrix, vector field", cst(dim, dim), fld(dim), "ij,epj->epi"), ("matrix field, vector field", fld(dim, dim), fld(dim), "epij,epj->epi"),
+             ("vector field, vector field", fld(dim), fld(dim), "epi,epi->ep"), ("vector field, constant matrix", fld(dim), cst(dim, dim), "epi,ij->epj"),
+             ("matrix field, matrix field", fld(dim, dim), fld(dim, dim), "epij,epjk->epik"), ("matrix field, constant matrix", fld(dim, dim), cst(dim, dim), "epij,jk->epik"),
+             ("constant vector, matrix field", cst(dim), fld(dim, dim), "i,epij->epj"), ("vector field, matrix field", fld(dim), fld(dim, dim), "epi,epij->epj")]
+    for what, a, b, subs in pairs:
+        want = np.einsum(subs, np.asarray(a), np.asarray(b))
+        for form, f in (("a @ b", lambda: a @ b), ("np.matmul(a, b)", lambda: np.matmul(a, b))):
+            try:
+                got = f()
+            except Exception as ex:
+                raise Refuted(f"{form} ({what}; Ne={Ne}, nPg={nPg}, dim={dim}) raises {type(ex).__name__}: {ex}", cex=dict(Ne=Ne, nPg=nPg, dim=dim, operands=what), signature=f"function:matmul:{form}:raises",
+                              replay=dict(confirmed=True))
+            n += 1
+            if np.shape(got) != want.shape or not np.allclose(np.asarray(got), want, rtol=1e-12, atol=1e-12) or not isinstance(got, FeArray):
+                raise Refuted(f"{form} ({what}; Ne={Ne}, nPg={nPg}, dim={dim}): shape {np.shape(got)}, type {type(got).__name__}; the product at every (e, p) has shape {want.shape}"
+                              + ("" if np.shape(got) != want.shape else f", max difference {np.abs(np.asarray(got) - want).max():.3e}"),
+                              cex=dict(Ne=Ne, nPg=nPg, dim=dim, operands=what, form=form), signature=f"function:matmul:{form}", replay=dict(confirmed=True))
+    v = fld(dim)
+    for what, f, axis in (("norm(v, 1, -1)", lambda: np.linalg.norm(v, 1, -1), -1), ("norm(v, ord=1, axis=-1)", lambda: np.linalg.norm(v, ord=1, axis=-1), -1),
+                          ("norm(v, 2, 0)", lambda: np.linalg.norm(v, 2, 0), 0), ("norm(v, ord=2, axis=0)", lambda: np.linalg.norm(v, ord=2, axis=0), 0),
+                          ("norm(v, None, 1)", lambda: np.linalg.norm(v, None, 1), 1)):
+        got = f()
+        n += 1
+        keeps = axis in (-1, 2)
+        if isinstance(got, FeArray) != keeps:
+            raise Refuted(f"np.linalg.{what} on a vector field (Ne={Ne}, nPg={nPg}, dim={dim}) returns {type(got).__name__} of shape {np.shape(got)}: the reduction "
+                          f"{'keeps' if keeps else 'consumes'} the (Ne, nPg) axes", cex=dict(Ne=Ne, nPg=nPg, dim=dim, call=what), signature="function:norm:type", replay=dict(confirmed=True))
+    return Verdict(DISCHARGED, backend="native vs per-point einsum", sub=n)
+
+
 def build(tier, seed):
     obs = []
     fl = lambda q: f"{LP}::{q}"
+    for shp in ((3, 3, 3), (5, 3, 3), (2, 2, 2), (4, 2, 3)):
+        obs.append(Ob("C12.function.forms.%dx%dx%d" % shp, ob_function_forms, shp, "X", (fl("FeArray.__array_ufunc__"), fl("FeArray.__array_function__"), fl("FeArray.__matmul__"), fl("FeArray.__rmatmul__")),
+                      bound="one (Ne, nPg, dim), 8 operand kinds, random values", clause="np.matmul(a, b) == a @ b == the product at every (e, p); np.linalg.norm typed by the consumed axes, positional or keyword arguments"))
     obs.append(Ob("C12.keeps_axes", ob_keeps_axes, (), "P", (fl("_KeepsFeAxes"),), clause="_KeepsFeAxes(axis, ndim) <=> every reduced axis is a tensor axis (ndim <= 6, axis int/tuple/None)"))
     for kind in ("dot", "ddot"):
         obs.append(Ob(f"C12.subscript.{kind}", ob_subscript, (kind,), "P", (fl(f"FeArray._{kind}_subscript"),),
